@@ -482,3 +482,15 @@ Fixpoint mfr_run (m : mfr) (ops : list mop) : list fobs :=
   | [] => []
   | op :: r => let '(m', o) := mfr_step m op in o :: mfr_run m' r
   end.
+
+(* =========================================================================
+   vocabulary of the open finding C18-line-boundaries (used by the checker's
+   guard and by the _partial theorem): line calls, and the characters at which
+   str.splitlines / bytes.splitlines split but io.StringIO does not
+   ========================================================================= *)
+Definition is_line_op (op : fop) : bool :=
+  match op with ReadLine _ | ReadLines _ | Next | ListAll | IterAll => true | _ => false end.
+Definition odd_break (c : N) : bool := is_ubrk c && negb (N.eqb c 10).
+Definition writes_odd_break (ops : list fop) : bool :=
+  existsb (fun op => match op with Write d => existsb odd_break d | _ => false end) ops.
+
